@@ -546,6 +546,10 @@ func TestPropJuxtaposition(t *testing.T) {
 				}
 			}
 			c.Drop[i] = seps[rapid.IntRange(0, len(seps)-1).Draw(t, "juxtSep")]
+			if c.Drop[i] == " " {
+				// any white space sets the two factors apart like a blank does
+				c.Drop[i] = rapid.SampledFrom([]string{" ", " ", " ", "\n", "\t", "\r\n", "  ", "\n\n", " \n", "\n ", "\r"}).Draw(t, "juxtWhite")
+			}
 		}
 		if msg := checkJuxt(c); msg != "" {
 			evid.Fail(t, prop, "juxt", "", c, "%s", msg)
